@@ -92,6 +92,9 @@ def run(ck: Checker):
     ck.rule('C17.DB', 'an in-memory CircuitsDatabase folded end to end (add_circuit of every normal-form two-input table, then get_by_raw_truth_table of every table with 1-2 (3) outputs through normalisation, key, codec and denormalisation): the answer computes exactly the requested table in the requested order, None exactly when the normal form is not stored')
     from .. import eval_fold
     eval_fold.fold_database(ck, 'C17.DB')
+    ck.rule('C17.SHIP', 'the two shipped database files split into entries under the dictionary layout; a spread of entries (first, longest, an even stride, every key length) decoded by the folded decode_circuit: well formed, inside the basis of the file, computing exactly the table the key spells, key in normal form')
+    eval_fold.fold_shipped(ck, 'C17.SHIP')
+    ck.floor('C17.SHIP', 2)
     NI = RepoClass(nm, nm.cls('NormalizationInfo'))
 
     # ---- NORM (folded) ----
